@@ -477,7 +477,14 @@ class Walker:
             if ann == "bytes":
                 ln = self.named(("len", p), (0, LEN_MAX))
                 return Bytes(p, Lin.const(0), None, Lin.term(ln))
-            return Num(Lin.term(self.named(("param", p))), ty=None) if not self.func.is_kernel else Opaque("param:" + p)
+            if self.func.is_kernel:
+                return Opaque("param:" + p)
+            # untyped Python parameter: integer-valued only if annotated so (strict comparisons are tightened only for integers)
+            isf = not (ann == "int" or (ann or "").startswith("int") or "uint" in (ann or ""))
+            if ann is None:
+                dv = self.default_of(p)
+                isf = not (isinstance(dv, ast.Constant) and isinstance(dv.value, int) and not isinstance(dv.value, bool))
+            return Num(Lin.term(self.named(("param", p), isfloat=isf)), isfloat=isf, ty=None)
         if ty.is_array:
             return Arr(p, ety=ty.scalar, ndim=ty.ndim, origin="param")
         if ty.kind in ("uint", "int"):
@@ -488,6 +495,18 @@ class Walker:
             ln = self.named(("len", p), (0, LEN_MAX))
             return Bytes(p, Lin.const(0), None, Lin.term(ln))
         return Opaque("param:" + p)
+
+    def default_of(self, p):
+        a = self.func.node.args
+        pos = a.posonlyargs + a.args
+        defs = [None] * (len(pos) - len(a.defaults)) + list(a.defaults)
+        for arg, d in zip(pos, defs):
+            if arg.arg == p:
+                return d
+        for arg, d in zip(a.kwonlyargs, a.kw_defaults):
+            if arg.arg == p:
+                return d
+        return None
 
     def annotation(self, p):
         a = self.func.node.args
@@ -844,12 +863,21 @@ class Walker:
             if not c[2] and self.P.prove_le0(-l + 1, st.facts):
                 st.dead = True
                 return
+            if c[2]:
+                lo = self.P.lo(l)
+                if lo is not None and lo > 0:
+                    st.dead = True
+                    return
             st.facts.append(l)
         elif k == "flt":
             l = c[1]
             if l.is_const():
                 if l.k >= 0:
                     st.dead = True
+                return
+            lo = self.P.lo(l)
+            if lo is not None and lo >= 0:
+                st.dead = True
                 return
             st.facts.append(l)       # weaker (<=), sound
         elif k == "eq":
@@ -1110,6 +1138,17 @@ class Walker:
                 la, ha, lb, hb = self.P.lo(a.lin), self.P.hi(a.lin), self.P.lo(b.lin), self.P.hi(b.lin)
                 if None not in (la, lb) and la >= 0 and lb >= 0:
                     rng = (la * lb, None if None in (ha, hb) else ha * hb)
+        if isinstance(op, ast.Div):
+            # positive constant over a positive range
+            la, ha, lb, hb = self.P.lo(a.lin), self.P.hi(a.lin), self.P.lo(b.lin), self.P.hi(b.lin)
+            if lb is None:
+                # a lower bound may come from the facts (validated parameter)
+                if self.P.prove_le0(Lin.const(1) - b.lin, st.facts):
+                    lb = 1
+            if hb is None and self.P.prove_le0(b.lin - (2 ** 64 - 1), st.facts):
+                hb = 2 ** 64 - 1
+            if None not in (la, ha, lb) and la >= 0 and lb > 0:
+                rng = ((la / hb) if hb else 0.0, ha / lb)
         self.named(t, rng, fl)
         r = Num(Lin.term(t), fl)
         if isinstance(op, ast.Mod) and not fl and rng[0] == 0:
@@ -1232,6 +1271,15 @@ class Walker:
             av = self.ev(e.args[0], st)
             if d == "int" and not self.func.is_kernel and isinstance(av, Num) and not self.P.is_float(av.lin):
                 return Num(av.lin)          # Python int(): arbitrary precision, value preserving
+            if not self.func.is_kernel and isinstance(av, Num) and not self.P.is_float(av.lin) and not av.isfloat \
+                    and ct.kind in ("uint", "int") and d not in ("int", "float"):
+                # NumPy (>= 2) scalar constructors outside Numba are value preserving or raise OverflowError:
+                # past this point the value is in range
+                lo, hi = ct.range()
+                self.emit("cast", e, st, target=ct, arg=av, result=av, fromfloat=False, inrange="checked")
+                st.facts.append(av.lin - hi)
+                st.facts.append(Lin.const(lo) - av.lin)
+                return Num(av.lin, False, ct)
             return self.cast(ct, av, st, e)
         if d == "len" and len(e.args) == 1:
             v = self.ev(e.args[0], st)
